@@ -490,6 +490,26 @@ fn mvt_inner(f: &mut dyn FnMut(&[u8])) {
 	f(&mvt::encode_tile(&oob));
 	let badgeom = vec![layer("a", &[], vec![], vec![feat(None, &[], 1, vec![9]), feat(None, &[], 2, vec![9, 2, 2, 0xffff_fff2]), feat(None, &[], 3, vec![9, 0, 0, 15]), feat(None, &[], 3, vec![15]), feat(None, &[], 2, vec![(u32::MAX << 3) | 1, 1, 1])])];
 	f(&mvt::encode_tile(&badgeom));
+	// well-framed tiles whose geometry commands announce far more repetitions than parameters follow (command
+	// integer = count << 3 | id), for every command id and counts 2^3 .. 2^28, at the start and after a valid prefix
+	for id in [1u32, 2, 7, 0, 3] {
+		for k in (3..=28u32).chain([29]) {
+			let count = if k == 29 { (1u32 << 29) - 1 } else { 1u32 << k };
+			let cmd = (count << 3) | id;
+			for geom in [vec![cmd, 2, 2], vec![9, 2, 2, cmd, 2, 2], vec![9, 2, 2, 18, 2, 2, 2, 2, cmd], vec![9, 2, 2, 10, 4, 4, cmd, 2, 2, 15]] {
+				for gtype in [1u64, 2, 3] {
+					f(&mvt::encode_tile(&[layer("a", &[], vec![], vec![feat(None, &[], gtype, geom.clone())])]));
+				}
+			}
+		}
+	}
+	// huge extent / version / tag indices / ids in a well-framed tile
+	for big in [u32::MAX, 1 << 31, 1 << 24] {
+		let mut l = layer("a", &["k"], vec![s("v")], vec![feat(Some(u64::MAX), &[big, big], 1, point(1, 1))]);
+		l.extent = Some(big);
+		l.version = big;
+		f(&mvt::encode_tile(&[l]));
+	}
 	// length prefixes announcing far more than the input holds
 	for field in [0x1au8, 0x0a, 0x12, 0x22] {
 		for len in [&[0xff, 0xff, 0xff, 0xff, 0x0f][..], &[0xff, 0xff, 0xff, 0xff, 0xff, 0xff, 0xff, 0x7f], &[0xff, 0xff, 0xff, 0xff, 0xff, 0xff, 0xff, 0xff, 0xff, 0x01], &[0x80, 0x80, 0x80, 0x80, 0x80, 0x80, 0x80, 0x80, 0x80, 0x80, 0x01]] {
